@@ -950,7 +950,12 @@ pub fn run_reorder(args: &Args, report: &mut Report) {
         let script = Arc::new(gen_script(&mut crng, &cfg, &mut next_id));
         let lockstep = crng.chance(1, 2);
         let layout = script_layout(&mut crng, script.replicas, lockstep);
-        let conn = *crng.pick(&[TOp::Shuffle, TOp::GroupBy, TOp::ToOne]);
+        let mut conn = *crng.pick(&[TOp::Shuffle, TOp::GroupBy, TOp::ToOne]);
+        let in_loop = crng.chance(1, 3);
+        if in_loop && conn == TOp::ToOne {
+            conn = TOp::Shuffle;
+        }
+        let rounds = crng.usize(2, 3);
         let traces = TraceSink::new();
         let (s1, tr) = (script.clone(), traces.clone());
         let turn = lockstep.then(|| Arc::new(AtomicUsize::new(0)));
@@ -960,13 +965,37 @@ pub fn run_reorder(args: &Args, report: &mut Report) {
             RunOpts::default(),
             move |ctx, _| {
                 let s = ctx.stream(ScriptSource::new(s1.clone(), turn.clone(), 40)).batch_mode(batch).boxed();
-                apply_top(s, conn).probed(RecProbe::new(1, "reorder-in", &tr)).reorder().probed(RecProbe::new(2, "reorder-out", &tr)).for_each(|_| {});
+                if in_loop {
+                    // every round replays the same event times: nothing may be carried over
+                    let tr2 = tr.clone();
+                    s.shuffle()
+                        .replay(
+                            rounds,
+                            0i64,
+                            move |s, _| {
+                                apply_top(s.boxed(), conn)
+                                    .probed(RecProbe::new(1, "reorder-in", &tr2))
+                                    .reorder()
+                                    .probed(RecProbe::new(2, "reorder-out", &tr2))
+                                    .drop_timestamps()
+                            },
+                            |d: &mut i64, r: Rec| *d += r.v,
+                            |a: &mut i64, d: i64| *a += d,
+                            |_| true,
+                        )
+                        .for_each(|_| {});
+                } else {
+                    apply_top(s, conn).probed(RecProbe::new(1, "reorder-in", &tr)).reorder().probed(RecProbe::new(2, "reorder-out", &tr)).for_each(|_| {});
+                }
             },
             |_, _| (),
         );
         let h = mix(hash_str(&format!("{:?}", script.steps)), hash_str(&format!("{conn:?}{}", layout.name())));
         let detail = |err: Option<String>| json!({"engine":"scripts.reorder","case":case,"shard":args.shard,"seed":args.seed,"layout":layout.name(),"lockstep":lockstep,
-            "connection":format!("{conn:?}"),"steps":script.steps.len(),"replicas":script.replicas,"error":err});
+            "connection":format!("{conn:?}"),"inside_replay_loop":in_loop,"steps":script.steps.len(),"replicas":script.replicas,"error":err});
+        if in_loop {
+            report.count("reorder_jobs_inside_replay_loop", 1);
+        }
         if !res.all_ok() {
             report.case(Verdict::Inconclusive, None, || detail(Some(format!("job failed: {:?} {:?}", res.end, res.panic_messages()))));
             continue;
